@@ -55,6 +55,10 @@ type referenceTracker struct {
 	// updates that are being processed
 	updates ModelUpdates
 
+	// referenceUpdates are the updates generated so far from reference
+	// tracking; they apply on top of updates
+	referenceUpdates ModelUpdates
+
 	// references are the updated references by the set of updates processed
 	references database.References
 
@@ -73,6 +77,7 @@ func newReferenceTracker(dbModel model.DatabaseModel, provider ReferenceProvider
 
 func (rt *referenceTracker) processReferences(updates ModelUpdates) (ModelUpdates, ModelUpdates, database.References, error) {
 	rt.updates = updates
+	rt.referenceUpdates = ModelUpdates{}
 	rt.tracked = make(map[string]string)
 	rt.added = make(map[string]string)
 	rt.deleted = make(map[string]string)
@@ -128,6 +133,9 @@ func (rt *referenceTracker) processReferencesLoop(updates ModelUpdates) (ModelUp
 		if err != nil {
 			return ModelUpdates{}, err
 		}
+
+		// the following iterations need to see the rows as updated so far
+		rt.referenceUpdates = referenceUpdates
 	}
 
 	return referenceUpdates, nil
@@ -543,8 +551,12 @@ func (rt *referenceTracker) getModel(table, uuid string) (model.Model, error) {
 		// model has been deleted
 		return nil, nil
 	}
-	// look for the model in the updates
-	model := rt.updates.GetModel(table, uuid)
+	// look for the model in the updates, the most recent first
+	model := rt.referenceUpdates.GetModel(table, uuid)
+	if model != nil {
+		return model, nil
+	}
+	model = rt.updates.GetModel(table, uuid)
 	if model != nil {
 		return model, nil
 	}
@@ -562,8 +574,12 @@ func (rt *referenceTracker) getRow(table, uuid string) (*ovsdb.Row, error) {
 		// row has been deleted
 		return nil, nil
 	}
-	// look for the row in the updates
-	row := rt.updates.GetRow(table, uuid)
+	// look for the row in the updates, the most recent first
+	row := rt.referenceUpdates.GetRow(table, uuid)
+	if row != nil {
+		return row, nil
+	}
+	row = rt.updates.GetRow(table, uuid)
 	if row != nil {
 		return row, nil
 	}
